@@ -151,6 +151,9 @@ theorem EvsOn.append {ok : List Nat} {e1 e2 : List Ev} (h1 : EvsOn ok e1) (h2 : 
 theorem dispatch_out (s : BSt) (st : Stmt) :
     ∃ evs, OutStep s (dispatch s st).1 evs ∧ EvsOn (s.lgOf st.lg).sinks evs := writeToSinks_out st _ s
 
+theorem OutStep_emit (s : BSt) (e : Ev) : OutStep s (s.emit e) [e] :=
+  ⟨LgKeep.of_lview (s' := s.emit e) rfl, ⟨rfl, fun _ => SinkCfgEq.refl _⟩, rfl⟩
+
 theorem replayGo_out (lgi : Nat) : ∀ (l : List Stmt) (s : BSt), (∀ x ∈ l, x.lg = lgi) →
     ∃ evs, OutStep s (replayRing.go s l).1 evs ∧ EvsOn (s.lgOf lgi).sinks evs
   | [], s, _ => ⟨[], OutStep.refl s, fun _ h => by cases h⟩
@@ -160,7 +163,16 @@ theorem replayGo_out (lgi : Nat) : ∀ (l : List Stmt) (s : BSt), (∀ x ∈ l, 
     obtain ⟨e1, h1, h2⟩ := dispatch_out s x
     rw [hl x List.mem_cons_self] at h2
     split
-    · exact ⟨e1, h1, h2⟩
+    · split
+      · obtain ⟨e2, g1, g2⟩ := replayGo_out lgi xs ((dispatch s x).1.emit (.notify "n:wfail"))
+          (fun y hy => hl y (List.mem_cons_of_mem _ hy))
+        have h1' := h1.trans (OutStep_emit (dispatch s x).1 (.notify "n:wfail"))
+        rw [(h1'.lg.2.2.2.2 lgi).2.2.2] at g2
+        refine ⟨e2 ++ ([.notify "n:wfail"] ++ e1), h1'.trans g1, g2.append (EvsOn.append ?_ h2)⟩
+        intro e he
+        simp only [List.mem_singleton] at he; subst he
+        exact ⟨fun sid h => by simp [usesSink] at h, fun _ => rfl⟩
+      · exact ⟨e1, h1, h2⟩
     · obtain ⟨e2, g1, g2⟩ := replayGo_out lgi xs (dispatch s x).1 (fun y hy => hl y (List.mem_cons_of_mem _ hy))
       rw [(h1.lg.2.2.2.2 lgi).2.2.2] at g2
       exact ⟨e2 ++ e1, h1.trans g1, g2.append h2⟩
@@ -250,7 +262,9 @@ theorem replayGo_lview : ∀ (l : List Stmt) (s : BSt), lview (replayRing.go s l
     unfold replayRing.go
     simp only []
     split
-    · exact writeToSinks_lview x _ s
+    · split
+      · rw [replayGo_lview xs]; exact writeToSinks_lview x _ s
+      · exact writeToSinks_lview x _ s
     · rw [replayGo_lview xs]; exact writeToSinks_lview x _ s
 
 theorem ring_of_lgs {s s' : BSt} (h : s'.lgs = s.lgs)
